@@ -440,7 +440,21 @@ func (x *Exec) runFrom(st *State, b *ssa.BasicBlock, start int, from *ssa.BasicB
 			})
 			return
 		case *ssa.Phi:
-			// NaiveForm keeps phis only for && / ||
+			// NaiveForm keeps phis only for && / || and for the hidden index of range loops.
+			// A phi in a loop header is a loop-carried value: it is havocked like the cells
+			// assigned in the loop (the index of a range loop is known to be >= -1).
+			if li := x.e.loops(st.ext().fr.fn); li.headers[b] != nil {
+				nv := x.freshVal(st, v.Type(), "h_phi")
+				for _, e := range v.Edges {
+					if c, ok := e.(*ssa.Const); ok && c.Value != nil && c.Int64() == -1 {
+						if n, ok := numOf(v.Type()); ok {
+							st.assume(x.e.ar.Cmp(token.LEQ, n, x.e.ar.ConstI(n, -1), nv.(VScalar).T))
+						}
+					}
+				}
+				st.ext().fr.regs[v] = nv
+				continue
+			}
 			found := false
 			for k, p := range b.Preds {
 				if p == from {
@@ -1127,9 +1141,36 @@ func (x *Exec) mapUpdate(st *State, v *ssa.MapUpdate) {
 	st.heapSet("MapLen", Store(ml, m.T, nl))
 }
 
+// next: iteration over a map is abstracted: an arbitrary number of iterations, each yielding
+// an arbitrary key/value of the right types (map contents are not modelled). Loop invariants
+// must therefore not depend on which entries are visited.
 func (x *Exec) next(st *State, v *ssa.Next) Val {
-	x.fail("range over map/string must be cut by a loop contract (unsupported here)")
-	return nil
+	if v.IsString {
+		x.fail("range over string unsupported")
+	}
+	tup := v.Type().(*types.Tuple)
+	ok := VScalar{x.e.fresh("rangeok", BoolSort)}
+	var kv, vv Val
+	kt, vt := tup.At(1).Type(), tup.At(2).Type()
+	if isValidType(kt) {
+		kv = x.freshVal(st, kt, "rangekey")
+	} else {
+		kv = VScalar{False}
+	}
+	if isValidType(vt) {
+		vv = x.freshVal(st, vt, "rangeval")
+	} else {
+		vv = VScalar{False}
+	}
+	x.e.assumptions["range over a map is an arbitrary number of iterations over arbitrary entries (map contents are not modelled)"] = true
+	return VTuple{[]Val{ok, kv, vv}}
+}
+
+func isValidType(t types.Type) bool {
+	if b, ok := t.(*types.Basic); ok && b.Kind() == types.Invalid {
+		return false
+	}
+	return true
 }
 
 // ---------------------------------------------------------------------------------
@@ -1358,7 +1399,14 @@ func (x *Exec) loopEnter(st *State, fr *Frame, h *loopHdr) bool {
 		ck := cellKey{A: a, Frame: fr.id}
 		if _, ok := st.cells[ck]; ok {
 			t := a.Type().Underlying().(*types.Pointer).Elem()
-			st.cells[ck] = x.freshVal(st, t, "h_"+a.Comment)
+			nv := x.freshVal(st, t, "h_"+a.Comment)
+			st.cells[ck] = nv
+			if a.Comment == "rangeindex" {
+				// the hidden index of a range loop: starts at -1 and only counts up to the length
+				if sv, ok := nv.(VScalar); ok {
+					st.assume(And(e.ar.Cmp(token.LEQ, tInt, e.ar.IConst(-1), sv.T), e.ar.Cmp(token.LEQ, tInt, sv.T, e.ar.Const(tInt, bigPow2(47)))))
+				}
+			}
 			names = append(names, a.Comment)
 		}
 	}
